@@ -38,7 +38,10 @@ def cmd_case(draw):
     script = draw(st.lists(st.tuples(st.sampled_from(['correct'] + ['wrong%d' % i for i in range(nwrong)]),
                                      st.integers(1, 60)), max_size=3))
     return {'t': 'cmd', 'cmd': name, 'args': args, 'script': [list(x) for x in script],
-            'timeout': draw(st.sampled_from([30, 50, 100]))}
+            'timeout': draw(st.sampled_from([30, 50, 100])),
+            # write back pressure on the server connection: drain() (and so command.send()) returns that much later,
+            # possibly after the reply was already processed
+            'drain_ms': draw(st.sampled_from([0, 0, 0, 8, 20]))}
 
 
 def enumerated():
@@ -46,6 +49,9 @@ def enumerated():
         doms, nwrong = COMMANDS[name]
         yield {'t': 'cmd', 'cmd': name, 'args': [0] * len(doms), 'script': [['correct', 5]], 'timeout': 50}
         yield {'t': 'cmd', 'cmd': name, 'args': [0] * len(doms), 'script': [], 'timeout': 30}
+        if not name.startswith('peer_'):
+            yield {'t': 'cmd', 'cmd': name, 'args': [0] * len(doms), 'script': [['correct', 5]], 'timeout': 50,
+                   'drain_ms': 20}
         for w in range(nwrong):
             yield {'t': 'cmd', 'cmd': name, 'args': [1] * len(doms), 'script': [['wrong%d' % w, 5], ['correct', 12]],
                    'timeout': 50}
@@ -173,6 +179,10 @@ def run_cmd_case(case, res: CaseResult):
     script = [s for s in script if not (s[1] in seen or seen.add(s[1]))]
     timeout = max(10, min(300, int(case.get('timeout', 50) or 50)))
     is_peer = name.startswith('peer_')
+    try:
+        drain = 0.0 if is_peer else max(0, min(40, int(case.get('drain_ms', 0) or 0))) / 1000.0
+    except Exception:
+        drain = 0.0
     out = {}
 
     async def main(world):
@@ -198,6 +208,8 @@ def run_cmd_case(case, res: CaseResult):
         client = await world.start_client(s)
         await asyncio.sleep(0.5)
         world.server.frames.clear()
+        if drain:
+            client.network.server_connection._writer.transport.drain_delay = drain
         cmd = _command(name, args)
         t0 = loop.time()
 
@@ -255,7 +267,7 @@ def run_cmd_case(case, res: CaseResult):
     first_correct = min(correct_times) if correct_times else None
     # execute() starts its timeout only after send() returned (for peer commands that includes opening the
     # connection): the deadline lies between t0 + timeout and (arrival of the request at the remote) + timeout
-    late_deadline = max(deadline, (out.get('req_time') or 0.0) + deadline)
+    late_deadline = max(deadline, (out.get('req_time') or 0.0) + deadline) + drain
     tie = first_correct is not None and deadline - 0.0025 < first_correct < late_deadline + 0.0025
     if outcome is None:
         res.violate('C12/cmd-no-outcome:' + name, '')
@@ -273,8 +285,8 @@ def run_cmd_case(case, res: CaseResult):
             res.violate(f'C12/cmd-completed-by-non-matching-reply:{name}',
                         f'returned after {outcome[1] * 1000:.1f} ms, correct reply only at {first_correct * 1000:.1f} ms; '
                         f'script={sent}')
-        elif outcome[1] > first_correct + 0.004:
-            res.violate(f'C12/cmd-completed-late:{name}', f'{outcome[1]} vs {first_correct}')
+        elif outcome[1] > max(first_correct, drain) + 0.004:
+            res.violate(f'C12/cmd-completed-late:{name}', f'{outcome[1]} vs {first_correct} (drain {drain})')
         elif not outcome[2]:
             res.violate(f'C12/cmd-no-result:{name}', '')
     else:
@@ -291,6 +303,9 @@ def run_cmd_case(case, res: CaseResult):
     wrong_before = any(v != 'correct' for v, t in sent if first_correct is None or t < first_correct)
     res.nontrivial = bool(wrong_before)
     res.label('cmd:' + name, 'cmd-outcome:' + (outcome[0] if outcome else 'none'))
+    if drain and first_correct is not None and first_correct < drain:
+        res.label('cmd-reply-before-send-returned')
+        res.nontrivial = True
     if wrong_before:
         res.label('cmd-near-miss-first')
 
